@@ -42,13 +42,19 @@ def variants(tier):
 def main(tier, replay=None):
     vs = variants(tier)
     targets = [(v, m) for v in vs for m in ("jit", "vmapBatch")]
-    plan = mp.shares(targets, n_sim=120 if tier == "quick" else 2500)
+    def multi_commit(b):
+        """histories with at least two committed plastic updates (a second update starts from Fp != I): the
+        non-proportional multi-step histories of the property's quantifier"""
+        acts = [o["a"] for o in b]
+        n = sum(1 for i in range(1, len(acts)) if acts[i] == "Commit" and acts[i - 1] in ("Update", "ReUpdate"))
+        return n >= 2
+    plan = mp.shares(targets, n_sim=150 if tier == "quick" else 2500, prefer=multi_commit)
 
     def single(behs, rng, n=(1 if tier == "quick" else 6)):
         full = [b for b in behs["ex"] if [o["a"] for o in b][-3:] == ["Update", "ReUpdate", "Commit"]]
         return rng.sample(full, min(n, len(full)))
     plan += [(v, "single", single) for v in (vs[:1] if tier == "quick" else vs[:6])]
-    return mp.run_check(PID, tier, replay, plan, ["plastic"], {"plastic": 200 if tier == "quick" else 4000},
+    return mp.run_check(PID, tier, replay, plan, ["plastic"], {"plastic": 2500 if tier == "quick" else 8000},
                         rule="load histories = every action sequence of MaterialPointGen_plastic_<tier>.cfg (each to one "
                              "model variant x exec mode, round robin) + seeded TLC random walks per variant x mode; "
                              "moduli, hardening constants, increments, rotations, time steps drawn per seed; distinct = "
